@@ -6,6 +6,7 @@ import (
 	sdkerrors "github.com/cosmos/cosmos-sdk/types/errors"
 	"github.com/unification-com/mainchain/x/beacon/exported"
 	"github.com/unification-com/mainchain/x/beacon/types"
+	wrkchainexported "github.com/unification-com/mainchain/x/wrkchain/exported"
 	"math"
 )
 
@@ -50,6 +51,12 @@ func (wfd CorrectBeaconFeeDecorator) AnteHandle(ctx sdk.Context, tx sdk.Tx, simu
 	if !exported.CheckIsBeaconTx(feeTx) {
 		// ignore and move on to the next decorator in the chain
 		return next(ctx, tx, simulate)
+	}
+
+	// BEACON and WRKChain messages cannot share a transaction: each module's decorator compares the
+	// whole fee with its own module's total, so a mixed transaction could only pass by under-paying
+	if wrkchainexported.CheckIsWrkChainTx(feeTx) {
+		return ctx, sdkerrors.Wrap(sdkerrors.ErrInvalidRequest, "BEACON and WRKChain messages cannot be combined in one transaction")
 	}
 
 	// Check fees amount sent in Tx. Check during CheckTx. Since BEACONs have set fees that are not
